@@ -80,6 +80,24 @@ func vpWorkOf(hs []wire.BlockHeader) *big.Int {
 	return w
 }
 
+// vpDisconnected: the block manager asked for this peer to be dropped.
+func vpDisconnected(sp *ServerPeer) bool {
+	if vpSymbolic() {
+		return vpPeerDisconnects(sp.Peer) > 0
+	}
+	done := make(chan struct{})
+	go func() {
+		sp.Peer.WaitForDisconnect()
+		close(done)
+	}()
+	select {
+	case <-done:
+		return true
+	case <-time.After(30 * time.Millisecond):
+		return false
+	}
+}
+
 func vpMkServerPeer(addr string) *ServerPeer {
 	if vpSymbolic() {
 		sp := &ServerPeer{Peer: &peer.Peer{}}
@@ -215,11 +233,14 @@ func (s *vpHdrScn) altHeader(parent []wire.BlockHeader, kind int, symTs bool) *w
 	if symTs && kind == 0 {
 		h.Timestamp = time.Unix(int64(vpU32("timestamp")), 0)
 	}
-	if !vpSymbolic() || vpParam("freepow", 1) == 0 {
-		vpGrind(h, kind != 1)
-	} else if kind == 1 {
-		vpAssumeSat(!vpPowOK(h))
+	// whether the header meets its proof-of-work target is a free input of
+	// its own (symbolically: an unconstrained value of the predicate for a
+	// fresh nonce; natively: a nonce is searched for that has this outcome)
+	good := kind != 1
+	if good && vpParam("freepow", 1) == 1 {
+		good = vpBool("powOK")
 	}
+	vpGrind(h, good)
 	return h
 }
 
@@ -387,6 +408,16 @@ func (s *vpHdrScn) oneMessage(tag string, o vpMsgOpt) bool {
 	S2 := e.bs.hdrs
 	s.checkStore(tag)
 	s.checkLookups(tag)
+	// (C03/C08) at no instant of the handling were filter headers committed
+	// above the block-header tip; afterwards they only cover surviving blocks
+	vpAssert(!e.ftAboveBt, tag+"filter-chain-never-ahead-of-block-chain-at-any-instant")
+	vpAssert(len(e.fs.hashes) <= len(S2), tag+"filter-chain-not-ahead-after-the-message")
+	for h := 0; h < len(e.fs.hashes) && h < len(S); h++ {
+		if !(h < len(S2)) || S2[h] != S[h] {
+			vpAssert(false, tag+"no-filter-header-survives-the-disconnection-of-its-block")
+			break
+		}
+	}
 
 	unchanged := vpSameChain(S2, S)
 	cutBack := false // discarded down to the previous checkpoint after a checkpoint failure
@@ -427,6 +458,9 @@ func (s *vpHdrScn) oneMessage(tag string, o vpMsgOpt) bool {
 	default:
 		cmpWork := vpWorkOf(vpDeref(R)).Cmp(vpWorkOf(S[f+1:]))
 		heavier := cmpWork > 0
+		if (cmpWork > 0) != (len(R) > tip-f) || (cmpWork == 0) != (len(R) == tip-f) {
+			vpReach("work-differs-from-length")
+		}
 		deepOK := f >= lastCpReached
 		if allValid && heavier && deepOK {
 			vpReach("heavier-valid-branch")
@@ -463,7 +497,7 @@ func (s *vpHdrScn) oneMessage(tag string, o vpMsgOpt) bool {
 	}
 
 	// the peer's connection teardown reaches the block manager now or later
-	if !s.done[senderIdx] && vpPeerDisconnects(sender.Peer) > 0 {
+	if !s.done[senderIdx] && vpDisconnected(sender) {
 		if vpRange(tag+"doneDelivered", 0, 1) == 1 {
 			s.done[senderIdx] = true
 			e.bm.handleDonePeerMsg(s.plist, sender)
@@ -516,7 +550,12 @@ func vpNewHdrScn(maxCps int, bothAges bool) *vpHdrScn {
 		params.TargetTimespan = time.Duration(iv) * params.TargetTimePerBlock
 		opt.bitsFor = s.reqBits
 	}
-	s.e = vpNewBMEnvOpt(n, bt, 0, params, opt)
+	ft := 0
+	if vpParam("filtertips", 0) == 1 {
+		// committed filter headers up to any height <= the block tip
+		ft = vpRange("filterTip", 0, bt)
+	}
+	s.e = vpNewBMEnvOpt(n, bt, ft, params, opt)
 	if s.e == nil {
 		return nil
 	}
@@ -529,7 +568,13 @@ func vpNewHdrScn(maxCps int, bothAges bool) *vpHdrScn {
 	// out to be a fork (the only shape it matters for)
 	s.e.bm.syncPeer = s.peers[0]
 	s.lazySync = true
-	s.e.bs.onMutate = func() { s.checkStore("instant:") }
+	watch := s.e.bs.onMutate // records a filter store that is ahead of the block store
+	s.e.bs.onMutate = func() {
+		if watch != nil {
+			watch()
+		}
+		s.checkStore("instant:")
+	}
 	s.checkStore("initial:")
 	return s
 }
